@@ -275,6 +275,10 @@ func isIdentifier(s string) bool {
 
 	// Remaining characters can be letters, digits, underscores, dots, or brackets
 	for i := 1; i < len(s); i++ {
+		// A negative array index counts from the end, e.g. arr[-1]
+		if s[i] == '-' && s[i-1] == '[' && i+1 < len(s) && isDigit(s[i+1]) {
+			continue
+		}
 		if !isLetter(s[i]) && !isDigit(s[i]) && s[i] != '_' && s[i] != '.' && s[i] != '[' && s[i] != ']' && s[i] != '\'' && s[i] != '"' && s[i] != '$' {
 			return false
 		}
